@@ -142,9 +142,11 @@ def token_strings(max_atoms, max_desc, level, seed=0, bond_variants=False, cap=N
                             return
 
 
-_ATOM_TOK = re.compile(r"(Cl|Br|\[[^\]]*\]|[BCNOPSFIcnops])(\d*)")
+_ATOM_TOK = re.compile(r"(Cl|Br|\[[^\]]*\]|[BCNOPSFIcnops])((?:[=#]?(?:\d|%\d\d))*)")  # atom + its ring-closure labels (with their bond symbols)
 
-RING_TEMPLATES = ["C1CCCCC1", "c1ccccc1", "C1CC1C", "c1ccc2ccccc2c1", "C1CCC2CCCCC2C1", "N1CCOCC1", "c1ccncc1", "CC(=O)OC", "C(=O)c1ccc(cc1)C(=O)", "CC(C)(C(=O)OC)", "C#CC", "OCC(O)CSc1c(F)cccc1F"]
+RING_TEMPLATES = ["C1CCCCC1", "c1ccccc1", "C1CC1C", "c1ccc2ccccc2c1", "C1CCC2CCCCC2C1", "N1CCOCC1", "c1ccncc1", "CC(=O)OC", "C(=O)c1ccc(cc1)C(=O)", "CC(C)(C(=O)OC)", "C#CC", "OCC(O)CSc1c(F)cccc1F",
+                  # ring closures that carry their own bond symbol / two-digit labels: the symbol belongs to the ring bond
+                  "C=1CCCCC1", "C1CCCCC=1", "C1CCCC(C=1)", "C=1C=CC=CC1", "C%11CCCCC%11", "C%11CCCCC=%11", "[N+]=1C=CC=CC1", "C1=CC=CC=C1", "C#1CCCCCCC1"]
 
 
 def ring_token_strings(level, max_ins=2, seed=0):
@@ -173,6 +175,11 @@ def ring_token_strings(level, max_ins=2, seed=0):
                         s = s[:pos] + "(" + t + ")" + s[pos:]
                 if ok:
                     yield s
+                    if r == 1 and kind != "lead":
+                        # the same single insertion with a double bond towards the descriptor
+                        kind, pos = places[combo[0]]
+                        t = dts[(k + combo[0]) % len(dts)]
+                        yield tmpl[:pos] + ("=" + t if kind == "trail" else "(=" + t + ")") + tmpl[pos:]
 
 
 # ------------------------------------------------------------------ format variants for higher levels
